@@ -269,14 +269,35 @@ func Replay(c *runlib.Ctx, raw json.RawMessage, build func(desc json.RawMessage)
 
 	o1, ex1 := runOnce(sc, explore.NewChooser(doc.Choices), true)
 	o2, ex2 := runOnce(sc, explore.NewChooser(doc.Choices), true)
+	remark := ""
 	if strings.Join(ex1.Trace, " ") != strings.Join(ex2.Trace, " ") || o1.History != o2.History {
-		runlib.EngineErrorf("replay is not deterministic:\n%v\n%v", ex1.Trace, ex2.Trace)
+		// The same choices gave two different executions.  If only one of them
+		// fails, the harness is not deterministic: an engine error.  If both
+		// fail, the code under test behaves differently from run to run under
+		// one schedule, which only memory contents can explain (the cache walks
+		// its list with unsafe pointer arithmetic: a corrupted list reads
+		// garbage); the failure is reported, with that remark.
+		if len(o1.Viols) == 0 || len(o2.Viols) == 0 {
+			runlib.EngineErrorf("replay is not deterministic:\n%v\n%v", clipTrace(ex1.Trace), clipTrace(ex2.Trace))
+		}
+
+		remark = " [two runs of this schedule both fail, differently: the behaviour depends on memory contents]"
+		ex1.Trace = clipTrace(ex1.Trace)
 	}
 
 	c.Eval()
 	c.Sample(map[string]any{"trace": ex1.Trace, "history": o1.History})
 	for _, v := range o1.Viols {
-		c.Violation(sc.Class()+"/"+v.Kind, fmt.Sprintf("%s: %s; schedule %v; history %s", v.Kind, v.What, ex1.Trace, o1.History),
+		c.Violation(sc.Class()+"/"+v.Kind, fmt.Sprintf("%s: %s; schedule %v; history %s%s", v.Kind, v.What, ex1.Trace, o1.History, remark),
 			replayDoc{Scenario: doc.Scenario, Choices: doc.Choices})
 	}
+}
+
+// clipTrace shortens a very long trace (a livelock) for messages.
+func clipTrace(t []string) []string {
+	if len(t) <= 120 {
+		return t
+	}
+
+	return append(append(append([]string(nil), t[:80]...), fmt.Sprintf("[... %d steps ...]", len(t)-100)), t[len(t)-20:]...)
 }
